@@ -53,7 +53,8 @@ def d_hostile(g, tier):
     ops = []
     for i in range(40 if tier == "quick" else 400):
         ops += gen.hostile_templates_session(g)
-    ops += gen.many_templates_session(g, 1100 if tier == "quick" else 4000)
+    for proto in ("v9", "ipfix"):
+        ops += gen.many_templates_session(g, 1100 if tier == "quick" else 4000, proto)
     return ops
 
 
@@ -446,7 +447,7 @@ def selftest():
     m = copy.deepcopy(lines)
     st = next(s for s in m[i]["out"][0]["sets"] if s["k"] == "data" and s["recs"])
     st["recs"][0][0]["v"]["b"] = [x ^ 1 for x in st["recs"][0][0]["v"]["b"]] or [1]; muts.append(("v9 value", m, "C04"))
-    i = first(lambda e: any(c["tmpl"]["ipfix"]["data"] for c in e["caches"]))
+    i = first(lambda e: any((not c["same"]) and c["tmpl"]["ipfix"]["data"] for c in e["caches"]))
     m = copy.deepcopy(lines); m[i]["caches"][0]["tmpl"]["ipfix"]["data"][0]["def"]["fields"][0]["len"] += 1; muts.append(("cached ipfix template", m, "C06"))
     i = first(lambda e: e["out"] and e["out"][-1]["k"] == "err")
     m = copy.deepcopy(lines); m[i]["out"][-1]["rem"] = m[i]["out"][-1]["rem"][:-1]; muts.append(("error remaining bytes", m, "C02"))
